@@ -24,7 +24,7 @@ class C19(Prop):
     pid = 'C19'
     tag = 'all parts (DUMP payloads are re-lexed by the expander)'
     rule = ('for each random item plan: the undumped request, one request per entry with `dump` on that entry only, '
-            'and one with the shared `dump`; for impl items: with and without `dump`; the payload of every dumped '
+            'one with the shared `dump`, and for split lists the shared `dump` of list k against entry-level `dump`s on exactly the entries of list k; for impl items: with and without `dump`; the payload of every dumped '
             'entry is compared token-for-token with the undumped expansion of the same entry (real-vs-real) and with '
             'the model; non-trivial = the dumped entry expands to impls (not an error); distinct by (features, item)')
     assumptions = ['the text layout inside the message is proc_macro2 Display (compared modulo re-lexing, as the property states)']
@@ -54,6 +54,23 @@ class C19(Prop):
             req, meta = assemble(plan2, mode, items=items, extra_feats=['dump-shared'])
             meta.update(gid=gid, role='shared')
             out.append((req, meta))
+            # several #[derive_ex(..)] lists on one item: the shared `dump` of list k is worth exactly an entry-level
+            # `dump` on each entry of list k and nothing on the entries of the other lists
+            if len(items) >= 2:
+                cut = rng.randrange(1, len(items))
+                cuts = [cut] + ([cut + 1] if cut + 1 < len(items) and rng.random() < 0.4 else [])
+                bounds = [0] + cuts + [len(items)]
+                sb = plan['shared_bound']
+                for k in range(len(cuts) + 1):
+                    flags = [(sb, j == k) for j in range(len(cuts) + 1)]
+                    req, meta = assemble(plan, mode, cuts, items=items, extra_feats=['dump-list%d' % k], list_flags=flags)
+                    meta.update(gid=gid, role='listS%d' % k)
+                    out.append((req, meta))
+                    its = [(t, ((a[0] if a else None), bounds[k] <= i < bounds[k + 1])) for i, (t, a) in enumerate(items)]
+                    req, meta = assemble(plan, mode, cuts, items=its, extra_feats=['dump-list-entries'],
+                                         list_flags=[(sb, False)] * (len(cuts) + 1))
+                    meta.update(gid=gid, role='listE%d' % k)
+                    out.append((req, meta))
         base = self.n(tier)
         for k in range(self.n(tier) // 2):
             req, meta = gi.impl_item()
@@ -101,6 +118,13 @@ class C19(Prop):
                     failures.append(dict(**{'class': 'shared-dump-leaves-impls', 'mode': role},
                                          input=r.input_text(), expected='no impl survives', observed=[p[0] for p in got]))
                     continue
+                if role.startswith('listS'):
+                    twin = g['listE' + role[5:]]
+                    if impl_parts(twin.actual) != got:
+                        failures.append(dict(**{'class': 'shared-dump-not-per-list', 'mode': 'list'},
+                                             input=r.input_text(), twin_input=twin.input_text(),
+                                             expected=[p[0] for p in impl_parts(twin.actual)], observed=[p[0] for p in got]))
+                        continue
                 if role.startswith('dump') and ndump > 1:
                     failures.append(dict(**{'class': 'dump-affects-other-entries', 'mode': role},
                                          input=r.input_text(), expected='one DUMP', observed=[p[0] for p in got]))
